@@ -85,3 +85,10 @@ Definition check_kinds (s : sig QcIF) (impl : list group) : bool :=
   forallb (fun g => match g with GN _ => true | _ => group_in g (kinds_tr s) end) impl.
 Definition noise_items (s : sig QcIF) : list (nitem QcIF) :=
   flat_map (fun t => match tkey t with KyN i => [(i, timg t)] | _ => [] end) s.
+
+(* Netlist._analysis_groups: the analysis groups a source is listed in are those the model derives from
+   the transform groups of its value (a model group whose selected value is zero need not be listed) *)
+Definition agroup_in (a : agroup) (l : list agroup) : bool := existsb (agroup_eqb a) l.
+Definition check_agroups (m : amode) (s : sig QcIF) (impl : list agroup) : bool :=
+  forallb (fun a => agroup_in a impl || (eqc (aselect_t a s) ci0 && eqc (aselect_s a s) ci0)) (agroups m s) &&
+  forallb (fun a => match a with AgKind (GN _) => true | _ => agroup_in a (agroups m s) end) impl.
